@@ -283,6 +283,54 @@ def check_ru(ctx, env, kind, n1, n2):
     ctx.case(case, nontrivial=st_["eq"] and s1 != s2, classes=["t:required_use", f"ru:{kind}"] + (["equal"] if st_["eq"] else []))
 
 
+# ---- histories of queries through ONE caching_repo -----------------------------------------------------------------
+
+def check_history(ctx, env, hist):
+    """restrictions are created, queried and (mostly) dropped again; every answer of the caching repo must be what the
+    restriction of *that* query matches (brute force over the universe).  After a drop the next restriction is
+    re-allocated until it lands on a previously freed address (class id_reused) when that happens within a few tries."""
+    import gc
+
+    hist = [[RP.strip(d), bool(drop), bool(nc)] for d, drop, nc in hist]
+    case = {"history": hist}
+    st_ = {"reused": 0, "distinct": len({core.jdump(h[0]) for h in hist})}
+
+    def body():
+        cr = env.caching_repo(env.FakeRepo(pkgs=env.pkgs), iter)
+        freed = set()
+        keep = []
+        for step, (d, drop, nc) in enumerate(hist):
+            r = env.B.build(d, nc)
+            if freed and id(r) not in freed:
+                # allocate/free until an old address comes back (bounded); the misses are parked so the allocator moves on
+                parked = []
+                for _ in range(12):
+                    parked.append(r)
+                    r = env.B.build(d, True)
+                    if id(r) in freed:
+                        break
+                del parked
+            if id(r) in freed:
+                st_["reused"] += 1
+                freed.discard(id(r))
+            got = [str(p) for p in cr.match(r)]
+            want = [str(p) for p in env.pkgs if r.match(p)]
+            if got != want:
+                _viol(ctx, "cache:caching_repo:history", case,
+                      f"step {step}: caching_repo.match({r}) returned {got[:4]}.. ({len(got)}), the restriction matches {want[:4]}.. ({len(want)})")
+                return
+            if drop:
+                freed.add(id(r))
+                del r
+                gc.collect(0)
+            else:
+                keep.append(r)
+
+    core.guarded(ctx, case, body)
+    ctx.case(case, nontrivial=st_["reused"] > 0 and st_["distinct"] > 1,
+             classes=["t:history"] + (["id_reused"] if st_["reused"] else []))
+
+
 # ---- curated pairs (always run; the shapes named in the property text) ------------------------------------------------
 
 def curated():
@@ -313,6 +361,11 @@ def curated():
     co = {"t": "contain", "vals": ["a"], "all": False, "neg": False, "bare": False, "sp": 0}
     out.append(("flatten/respell", {"t": "flatten", "child": co, "neg": False, "sp": 0}, {"t": "flatten", "child": co, "neg": False, "sp": 1}))
     out.append(("strexact/cs", se, dict(se, cs=False)))
+    for kind_ in ("and", "or", "justone", "atmost"):
+        for dom, kid in (("pkg", {"t": "catdep", "v": "c", "neg": False, "sp": 0}), ("str", se)):
+            tree = {"t": "bool", "kind": kind_, "dom": dom, "children": [kid, dict(kid, neg=True)], "neg": False, "sp": 0}
+            for inc in (0, 1, 2):
+                out.append(("bool/incremental", tree, dict(tree, inc=inc)))
     out.append(("pkgr/moveneg", {"t": "pkgr", "attr": "slot", "child": se, "neg": True, "sp": 0},
                 {"t": "pkgr", "attr": "slot", "child": dict(se, neg=True), "neg": False, "sp": 0}))
     return out
@@ -322,9 +375,11 @@ def curated():
 
 def plan(tier, seed):
     tasks = [{"task": "curated"}]
+    for i in range(2 if tier == "quick" else 8):
+        tasks.append({"task": "hist", "examples": 500 if tier == "quick" else 4000})
     if tier == "quick":
-        for i in range(11):
-            tasks.append({"task": "hyp", "examples": 1200})
+        for i in range(9):
+            tasks.append({"task": "hyp", "examples": 1100})
         for i in range(4):
             tasks.append({"task": "ru", "examples": 600})
     else:
@@ -350,6 +405,9 @@ def run_task(ctx, task, **kw):
     elif task == "hyp":
         env = Env()
         core.hyp_run(ctx, RP.desc_pair(), lambda t: check_pair(ctx, env, t[0], t[1], t[2], t[3]), kw["examples"], chunk=400)
+    elif task == "hist":
+        env = Env()
+        core.hyp_run(ctx, RP.query_history(), lambda h: check_history(ctx, env, h), kw["examples"], chunk=250, seed_salt=5)
     elif task == "ru":
         ru = RUEnv()
         core.hyp_run(ctx, RP.ru_pair(), lambda t: check_ru(ctx, ru, t[0], t[1], t[2]), kw["examples"], chunk=350)
@@ -358,6 +416,9 @@ def run_task(ctx, task, **kw):
 
 
 def replay(ctx, case):
+    if "history" in case:
+        check_history(ctx, Env(), case["history"])
+        return
     if "ru1" in case:
         # ru1 is only text; rebuild its AST is unnecessary: parse text directly, reference uses ast2
         env = RUEnv()
